@@ -184,6 +184,22 @@ pub proof fn lemma_chain_push(ix: Seq<BlobEntryIndex>, at: int, x: BlobEntryInde
         assert(total(px) == align_up_spec(px[0].len as int) + total(px.subrange(1, px.len() as int)));
     }
 }
+/// what BlockScanner::next steps by (offset + aligned length of the LAST index entry of a blob) is exactly where the
+/// writer starts the next blob (blob offset + data start + bytes placed)
+pub proof fn lemma_chain_last(ix: Seq<BlobEntryIndex>, at: int)
+    requires chain(ix, at), ix.len() > 0,
+    ensures ix.last().offset as int + align_up_spec(ix.last().len as int) == at + total(ix), // @label scanner_step_equals_writers_end_of_blob
+    decreases ix.len(),
+{
+    if ix.len() == 1 {
+        assert(ix.subrange(1, 1) =~= Seq::<BlobEntryIndex>::empty());
+        assert(total(ix.subrange(1, ix.len() as int)) == 0);
+    } else {
+        let tail = ix.subrange(1, ix.len() as int);
+        lemma_chain_last(tail, at + align_up_spec(ix[0].len as int));
+        assert(tail.last() == ix.last());
+    }
+}
 pub proof fn lemma_total_aligned(ix: Seq<BlobEntryIndex>)
     ensures total(ix) % 4096 == 0, total(ix) >= 0, ix.len() > 0 && ix[0].len > 0 ==> total(ix) >= 4096,
     decreases ix.len(),
